@@ -189,3 +189,166 @@ Proof.
     rewrite Eg. unfold get_vm in Eg. injection Eg as <-. rewrite Ep, Eh. exact El.
   - intros e1 e2 He. apply simg_of_sim, sim_closure_tail; assumption.
 Qed.
+
+(* ------------------------------------------------------------------ build_lexical_environment *)
+Section Ble.
+Variables (argc cep : N) (cenv : list vcell).
+Fixpoint ble_go (m : list (vcell * bsrc)) (slot : N) (env : list vcell) : M (list vcell) :=
+  match m with
+  | [] => ret env
+  | (_, src) :: r =>
+      match src with
+      | BArgument a =>
+          dom s <- get_vm;
+          dom k <- usub argc a;
+          dom base <- usub (bp s) k;
+          dom v <- stack_get (base + 1);
+          ble_go r (slot + 1) (list_set env slot v)
+      | BIofArgument _ | BIofEnvironment _ =>
+          match list_get cenv slot with
+          | None => panic 44
+          | Some (VLexPtr _ _) => ble_go r (slot + 1) env
+          | Some _ =>
+              if slot <? len env then ble_go r (slot + 1) (list_set env slot (VLexPtr cep slot))
+              else panic 44
+          end
+      | _ => ble_go r (slot + 1) env
+      end
+  end.
+End Ble.
+Lemma ble_eq l cep cenv :
+  build_lexical_environment l cep cenv = ble_go (len (l_args l)) cep cenv (l_envmap l) 0 cenv.
+Proof. reflexivity. Qed.
+
+Lemma hmi_ble argc cep cenv m : forall slot env, hmi (ble_go argc cep cenv m slot env).
+Proof. induction m as [|[x src] r IH]; intros slot env; cbn [ble_go]; hmi; try apply IH. Qed.
+Lemma hmi_build_lexical_environment l cep cenv : hmi (build_lexical_environment l cep cenv).
+Proof. rewrite ble_eq. apply hmi_ble. Qed.
+#[export] Hint Resolve hmi_build_lexical_environment : hmi.
+
+Lemma rsim_ble W (G : vm -> Prop) argc cep1 cep2 cenv1 cenv2 :
+  (forall s, G s -> bp s + 1 <= sp s) -> ar W cep1 cep2 -> lr W cenv1 cenv2 ->
+  forall m1 m2 slot env1 env2, map snd m2 = map snd m1 -> lr W env1 env2 ->
+  rsim W G (lr W) (ble_go argc cep1 cenv1 m1 slot env1) (ble_go argc cep2 cenv2 m2 slot env2).
+Proof.
+  intros HG Hcep Hcenv.
+  induction m1 as [|[x1 src] r1 IH]; intros m2 slot env1 env2 Em He; destruct m2 as [|[x2 src2] r2]; try discriminate.
+  - apply rsim_ret, He.
+  - cbn [map snd] in Em. injection Em as -> Er. cbn [ble_go].
+    assert (Iof : rsim W G (lr W)
+              match list_get cenv1 slot with
+              | None => panic 44
+              | Some (VLexPtr _ _) => ble_go argc cep1 cenv1 r1 (slot + 1) env1
+              | Some _ => if slot <? len env1 then ble_go argc cep1 cenv1 r1 (slot + 1) (list_set env1 slot (VLexPtr cep1 slot))
+                          else panic 44
+              end
+              match list_get cenv2 slot with
+              | None => panic 44
+              | Some (VLexPtr _ _) => ble_go argc cep2 cenv2 r2 (slot + 1) env2
+              | Some _ => if slot <? len env2 then ble_go argc cep2 cenv2 r2 (slot + 1) (list_set env2 slot (VLexPtr cep2 slot))
+                          else panic 44
+              end).
+    { pose proof (lr_get W _ _ slot Hcenv) as H. destruct (list_get cenv1 slot) as [v1|]; [|apply rsim_panic].
+      destruct H as (v2 & -> & [-> Lv]). rewrite (lr_len _ _ _ He).
+      destruct v1; cbn [vmap]; try (apply IH; assumption);
+        (destruct (slot <? len env1); [|apply rsim_panic]; apply IH; [exact Er|];
+         apply lr_set; [exact He|apply vr_lexptr, Hcep]). }
+    destruct src; try exact Iof; try (apply IH; assumption).
+    apply rsim_bind_get_vm. intros y1 y2 Hs g. rewrite (sn_bp _ _ _ Hs).
+    eapply rsim_bind; [apply rsim_usub|]. intros k1 k2 [-> Hk].
+    eapply rsim_bind; [apply rsim_usub|]. intros b1 b2 [-> Hb].
+    eapply rsim_bind; [apply rsim_stack_get; intros s ->; specialize (HG y1 g); lia|]. intros v1 v2 Hv.
+    eapply rsim_weaken; [|apply IH; [exact Er|apply lr_set; assumption]]. intros s ->. exact g.
+Qed.
+
+(* ------------------------------------------------------------------ ENTER *)
+Definition enter_tail (l : lambda) (cenv : option N) : M bool :=
+  match cenv with
+  | None => ret false
+  | Some cep =>
+      dom cev <- hget cep; dom ceid <- as_lexenv cev; dom cslots <- env_slots ceid;
+      dom env <- build_lexical_environment l cep cslots;
+      dom ev <- env_new env; dom evp <- hput ev; dom ei <- as_ptr evp;
+      dom _ <- set_ep ei; ret false
+  end.
+Lemma enter_frame_eq :
+  enter_frame =
+  (dom s <- get_vm;
+   dom target <- hderef (acc s);
+   dom (lp, cenv) <- (match target with
+                      | VClosure lam env => ret (lam, Some env)
+                      | VLambda _ => dom p <- as_ptr (acc s); ret (p, None)
+                      | _ => fail E_OTHER
+                      end);
+   dom lv <- hget lp; dom l <- as_lambda lv;
+   dom a <- stack_get_offset (-2); dom argc <- as_argc a;
+   if negb (argc =? len (l_args l)) then fail E_OTHER else
+   dom _ <- push (VBp (bp s));
+   dom s1 <- get_vm;
+   dom nb <- usub (sp s1) 4;
+   dom _ <- set_bp nb;
+   enter_tail l cenv).
+Proof. reflexivity. Qed.
+
+Lemma hmi_enter_tail l c : hmi (enter_tail l c).
+Proof. unfold enter_tail. hmi. Qed.
+#[export] Hint Resolve hmi_enter_tail : hmi.
+
+Definition framed (s : vm) : Prop := bp s + 4 = sp s.
+Lemma simg_enter_tail W l1 c1 c2 : llive W l1 -> orel (ar W) c1 c2 ->
+  simg W framed eqr (enter_tail l1 c1) (enter_tail (lmap (wf W) l1) c2).
+Proof.
+  intros Ll Hc. destruct c1 as [p1|], c2 as [p2|]; cbn [orel] in Hc; try contradiction; cbn [enter_tail];
+    [|apply simg_of_sim, sim_ret; reflexivity].
+  eapply rsimg_bind; [apply rsim_hget, Hc|]. intros v1 v2 Hv.
+  eapply rsimg_bind; [apply rsim_as_lexenv, Hv|]. intros e1 e2 He.
+  eapply rsimg_bind; [apply rsim_env_slots, He|]. intros s1 s2 Hsl.
+  rewrite !ble_eq, lmap_args_len.
+  eapply rsimg_bind.
+  - apply rsim_ble; [|exact Hc|exact Hsl|apply lmap_envmap_snd|exact Hsl].
+    intros s (((g & _) & _) & _). unfold framed in g. lia.
+  - intros env1 env2 Henv. apply simg_of_sim.
+    sb ltac:(apply sim_env_new, Henv). intros W1 ev1 ev2 E1 Hev.
+    sb ltac:(apply sim_hput, Hev). intros W2 evp1 evp2 E2 Hevp.
+    sb ltac:(apply sim_as_ptr, Hevp). intros W3 ei1 ei2 E3 Hei.
+    sb ltac:(apply sim_set_ep, Hei). intros. apply sim_ret. reflexivity.
+Qed.
+
+Lemma vr_bp W n : vr W (VBp n) (VBp n). Proof. apply vr_plain; reflexivity. Qed.
+
+Definition prel (W : world) (x1 x2 : N * option N) : Prop :=
+  ar W (fst x1) (fst x2) /\ orel (ar W) (snd x1) (snd x2).
+
+Lemma llive_x W W' l : ext W W' -> llive W l -> llive W' l /\ lmap (wf W') l = lmap (wf W) l.
+Proof.
+  intros [E _] Ll. destruct (lamr_ext W W' l (lmap (wf W) l) E (conj eq_refl Ll)) as [A B]. split; [exact B|symmetry; exact A].
+Qed.
+
+Lemma simg_enter W : simg W gtrue eqr enter_frame enter_frame.
+Proof.
+  rewrite enter_frame_eq.
+  eapply rsimg_bind; [apply rsim_get_vm|]. intros x1 x2 (Hs & _ & _).
+  eapply rsimg_bind; [apply rsim_hderef, (sn_acc _ _ _ Hs)|]. intros t1 t2 [-> Lt].
+  eapply rsimg_bind with (P := prel W).
+  { destruct t1; cbn [vmap]; try apply rsim_fail.
+    - apply rsim_ret. split; cbn [fst snd orel]; (split; [reflexivity|apply (vlive_addr _ _ _ Lt)]); [now left|right; now left].
+    - eapply rsim_bind; [apply rsim_as_ptr, (sn_acc _ _ _ Hs)|]. intros p1 p2 Hp. apply rsim_ret. split; [exact Hp|exact I]. }
+  intros [p1 c1] [p2 c2] [Hp Hc]. cbn [fst snd] in Hp, Hc. cbv beta iota.
+  eapply rsimg_bind; [apply rsim_hget, Hp|]. intros lv1 lv2 Hlv.
+  eapply rsimg_bind; [apply rsim_as_lambda, Hlv|]. intros l1 l2 [-> Ll].
+  eapply rsimg_bind; [apply rsim_stack_get_offset; lia|]. intros a1 a2 Ha.
+  eapply rsimg_bind; [apply rsim_as_argc, Ha|]. intros n1 n2 <-.
+  rewrite lmap_args_len. destruct (negb (n1 =? len (l_args l1))); [apply simg_of_sim, sim_fail|].
+  rewrite (sn_bp _ _ _ Hs).
+  eapply simg_bind; [apply simg_of_sim, sim_push, vr_bp|hmi|intros; hmi|]. intros W1 ? ? E1 _.
+  apply (simg_weaken W1 gtrue); [intros; exact I|].
+  destruct (llive_x W W1 l1 E1 Ll) as [Ll1 El1]. rewrite <- El1.
+  assert (Hc1 : orel (ar W1) c1 c2) by (eapply orel_impl; [|exact Hc]; intros a b; apply ar_x, E1).
+  eapply rsimg_bind; [apply rsim_get_vm|]. intros y1 y2 (Hy & _ & _). rewrite (sn_sp _ _ _ Hy).
+  eapply rsimg_bind; [apply rsim_usub|]. intros b1 b2 [-> Hb].
+  eapply simg_bind; [apply simg_of_sim, sim_set_bp|hmi|intros; hmi|]. intros W2 ? ? E2 _.
+  destruct (llive_x W1 W2 l1 E2 Ll1) as [Ll2 El2]. rewrite <- El2.
+  eapply simg_weaken; [|apply simg_enter_tail; [exact Ll2|eapply orel_impl; [|exact Hc1]; intros a b; apply ar_x, E2]].
+  intros s (s0 & ((_ & Eg) & _) & Es). unfold get_vm in Eg. injection Eg as ->.
+  unfold set_bp in Es. injection Es as Es. subst s. unfold framed. cbn [with_bp bp sp]. exact Hb.
+Qed.
